@@ -12,7 +12,8 @@ From Soy Require Import Proofs.SourceTieMsg Proofs.SourceTiePo.
 From Soy Require Import Proofs.MsgIdProofs.
 From Soy Require Import Model.Bytes Model.Outcome Model.Num Model.Values Model.Ast Model.MsgId
   Model.Escape Model.Interp Model.MsgParts Spec.MsgCat Proofs.MsgPartsProofs Proofs.InterpRelProofs Proofs.InterpPosProofs Proofs.MsgCatProofs
-  Proofs.MsgPluralProofs Model.PoFile Proofs.PoFileProofs Model.JsGen Proofs.MsgJsProofs.
+  Proofs.MsgPluralProofs Model.PoFile Proofs.PoFileProofs Model.JsGen Proofs.MsgJsProofs
+  Model.PoEntry Proofs.PoEntryProofs Model.PoBundle Proofs.PoBundleProofs Model.MiniJS Proofs.InterpGuard Proofs.MiniJSProofs Proofs.MiniJSPrint Proofs.MiniJSCtl Proofs.MiniJSGo Proofs.MiniJSStmt Proofs.MiniJSGen Proofs.MiniJSSim Proofs.MsgWalkEq Proofs.MsgThreeSided.
 Open Scope N_scope.
 
 (* ------------------------------------------------------------------ *)
@@ -499,3 +500,167 @@ Lemma untranslated_refuted :
   (exists bd, new_bundle_pinned [{| po_id := 5; po_var := []; po_strs := [[]] |}] = Ok bd /\ bundle_message bd 5 = Some (CSimple [])) /\
   (exists bd, new_bundle [{| po_id := 5; po_var := []; po_strs := [[]] |}] = Ok bd /\ bundle_message bd 5 = None).
 Proof. split; eexists; split; reflexivity. Qed.
+
+(* ------------------------------------------------------------------ *)
+(* the PO file as bytes: lines, comment lines, the extractor's entry     *)
+(* ------------------------------------------------------------------ *)
+
+(* bufio.ScanLines inverts "every line followed by \n" on lines without a newline inside, up to the one
+   carriage return it drops at the end of a line; whatever follows is scanned on its own *)
+Theorem C11_po_scan_join_app : forall ls rest, Forall nl_free ls ->
+  scan_lines [] (join_lines ls ++ rest) = map drop_cr ls ++ scan_lines [] rest.
+Proof. exact scan_lines_join_app. Qed.
+Print Assumptions C11_po_scan_join_app.
+
+Theorem C11_po_scan_join_lines : forall ls, Forall (fun l => nl_free l /\ drop_cr l = l) ls ->
+  scan_lines [] (join_lines ls) = ls.
+Proof. exact scan_lines_join_lines. Qed.
+Print Assumptions C11_po_scan_join_lines.
+
+(* every line Message.WriteTo writes for msgctxt / msgid / msgid_plural / msgstr[i] is such a line, for every
+   value (strconv.Quote leaves no newline, the line ends with the closing quote): the bytes of the quoted
+   fields read as lines are the lines written *)
+Theorem C11_po_fields_bytes_lines : forall is_print m,
+  scan_lines [] (join_lines (po_write_fields is_print m)) = po_write_fields is_print m.
+Proof. exact fields_bytes_lines. Qed.
+Print Assumptions C11_po_fields_bytes_lines.
+
+(* THE ENTRY xgettext-soy WRITES (after repair a5cfda0: one "#. " line per line of the description), for
+   EVERY description -- newlines, carriage returns, '#', quotes, anything --, id, plural variable (an
+   identifier: non-empty, no white space) and quoted fields: Comment.WriteTo + Message.WriteTo + the empty
+   line of File.WriteTo, as BYTES, read by bufio.ScanLines and the message literal of po.Parse, gives the
+   references "id=<id>" (and "var=<name>"), the description's lines (trimmed), and msgctxt / msgid /
+   msgid_plural / msgstr as written; no error is flagged and the scanner stands on the empty line *)
+Theorem C11_po_extract_entry_roundtrip : forall is_print desc id pv f rest e,
+  var_ok pv -> fields_bytes f ->
+  pe_read_message
+    (scan_of (scan_lines [] (join_lines (pe_write_message is_print (pe_extract_entry desc id pv f)) ++ 10 :: rest)) e)
+  = Ok ({| pm_comment := {| pc_translator := []; pc_extracted := map (fun d => trim_space (drop_cr d)) (pe_split_nl [] desc);
+                            pc_refs := refs_of id pv; pc_flags := [];
+                            pc_prev_ctxt := []; pc_prev_id := []; pc_prev_id_plural := [] |};
+           pm_fields := {| pf_ctxt := pf_ctxt f; pf_id := pf_id f; pf_id_plural := pf_id_plural f; pf_str := norm_str f |} |},
+        scan_of ([] :: scan_lines [] rest) e).
+Proof. exact extract_entry_roundtrip. Qed.
+Print Assumptions C11_po_extract_entry_roundtrip.
+
+(* ... and pomsg.newBundle's loop over those references finds that id and that plural variable *)
+Theorem C11_po_refs_id_var : forall id pv, pe_refs_id_var (refs_of id pv) None None = (Some (dec_of_N id), pv).
+Proof. exact refs_id_var. Qed.
+Print Assumptions C11_po_refs_id_var.
+
+(* THE WHOLE FILE: File.WriteTo of the extractor's entries for any list of messages (description, id, plural
+   variable, quoted fields), as bytes, through bufio.ScanLines and the loop of po.Parse (nextmsg skipping the empty
+   lines, the message literal per entry): every entry comes back, in order, with its references and its quoted
+   fields, and no error is flagged.  (What Parse then does with a first entry whose msgid is empty -- the header,
+   textproto, Plural-Forms -- is outside the model; the extractor writes no header and no empty msgid.) *)
+Theorem C11_po_parse_extracted_file : forall is_print (es : list xentry), Forall xentry_ok es ->
+  pe_parse (pe_write_file is_print (map xentry_msg es)) = Ok (map xentry_read es).
+Proof. exact parse_extracted_file. Qed.
+Print Assumptions C11_po_parse_extracted_file.
+
+(* FROM THE BYTES OF THE CATALOGUE TO THE BUNDLE: po.Parse followed by the loop of pomsg.newBundle (references read
+   with strings.HasPrefix and strconv.ParseUint, id 0 refused, untranslated entries skipped, the later of two entries
+   with one id wins) on the file File.WriteTo writes for the extractor's entries -- any descriptions, ids below 2^64,
+   any msgstr filled in -- is [new_bundle] on the (id, plural variable, msgstr) triples: the abstract catalogue of
+   Model/MsgParts.v, over which every rendering theorem above is stated (bundle_message bd id = Some (new_message ..)) *)
+Theorem C11_po_load_extracted_file : forall is_print (es : list xentry), Forall xentry_ok es -> Forall xentry_id64 es ->
+  pb_load (pe_write_file is_print (map xentry_msg es)) = new_bundle (map xentry_po es).
+Proof. exact load_extracted_file. Qed.
+Print Assumptions C11_po_load_extracted_file.
+
+(* strconv.ParseUint reads back the %d of a uint64 *)
+Theorem C11_po_parse_uint_dec : forall id, id < 18446744073709551616 -> pb_parse_uint (dec_of_N id) = Some id.
+Proof. exact parse_uint_dec. Qed.
+Print Assumptions C11_po_parse_uint_dec.
+
+(* before the repair (the description written as ONE "#. " value): a description of two lines puts its second
+   line inside the entry, and the message Parse reads has no reference and no msgid *)
+Theorem C11_po_pinned_entry_refuted :
+  exists m s, pe_read_message
+      (scan_of (scan_lines [] (join_lines (pe_write_message (fun _ => true) (pe_extract_entry_pinned ex_desc 42 None ex_fields)) ++ [10])) false)
+    = Ok (m, s) /\ pc_refs (pm_comment m) = [] /\ pf_id (pm_fields m) = [].
+Proof. exact pinned_entry_loses_id. Qed.
+
+(* a plural entry with a description of three lines, one ending in a carriage return *)
+Example ex_po_entry :
+  let f := {| pf_ctxt := b "verb"; pf_id := b "One {X}"; pf_id_plural := b "{N} things"; pf_str := [] |} in
+  var_ok (Some (b "N_1")) /\ fields_bytes f /\
+  join_lines (pe_write_message (fun _ => true) (pe_extract_entry (b "first" ++ [13; 10; 10] ++ b "# third") 77 (Some (b "N_1")) f))
+  = b "#. first" ++ [13; 10] ++ b "#. " ++ [10] ++ b "#. # third" ++ [10] ++ b "#: id=77 var=N_1" ++ [10]
+    ++ b "msgctxt " ++ [34] ++ b "verb" ++ [34; 10] ++ b "msgid " ++ [34] ++ b "One {X}" ++ [34; 10]
+    ++ b "msgid_plural " ++ [34] ++ b "{N} things" ++ [34; 10] ++ b "msgstr[0] " ++ [34; 34; 10].
+Proof. split; [|split]; [| |vm_compute; reflexivity]; vm_compute; repeat constructor; try discriminate; try lia. Qed.
+
+(* ------------------------------------------------------------------ *)
+(* a translated message on the three sides (composition with C04)       *)
+(* ------------------------------------------------------------------ *)
+
+(* on code without {msg} and without {call} the walker with a bundle IS the walker: same result, same state *)
+Theorem C11_walk_b_is_walk : forall cf plural_index bd fuel n, msgfree n = true ->
+  forall st, walk_b cf plural_index bd fuel n st = walk cf fuel n st.
+Proof. exact walk_b_is_walk. Qed.
+Print Assumptions C11_walk_b_is_walk.
+
+(* A flat message with the catalogue entry tr whose slots all resolve to core prints ({print e|ds} over C04's
+   expression subset) or html tags of the message ([ss] = the items as statements of C04's subset: SRaw t for a
+   text segment and for a tag, SPrint e ds for a print: [item_stmt]), from ANY three states related by C04's [sim] (the renderer's state, the JavaScript
+   environment, the generator's state; old = the buffer variable so far), when the subset semantics gives the
+   items the text [text] (stmts_text: the translation's text segments and the printed, escaped values of the
+   slots' placeholders, in the TRANSLATION's order):
+   (Go)  soyhtml's evalMsg with the bundle writes exactly text;
+   (JS)  executing the MiniJS statements of the items in order succeeds (and, by [sim] of the result, leaves
+         old ++ text in the buffer variable);
+   (Gen) soyjs's visitMsgNode with the same catalogue entry emits exactly the chunks of those statements;
+   and the three resulting states are related by [sim] again, so C04's theorems apply to the code that follows.
+   PARTIAL with respect to C04/C11's full statement: flat messages, slots that are core prints or html tags (not
+   calls, not prints outside C04's expression subset), values whose text has no NUL and no double quote (C04's [cleanb]), no plural. *)
+Theorem C11_three_sided_translation_partial : forall cf plural_index bd o lv fuel mp id body tr msgs ss,
+  forallb flat_node body = true -> items_named body tr -> parts_clean (map item_part tr) ->
+  bundle_message bd id = Some (new_message [] [msgstr_of tr]) ->
+  o_msgs o = Some msgs -> assoc_n id msgs = Some (jparts_of_cmsg (new_message [] [msgstr_of tr])) ->
+  Forall2 item_stmt (map (resolve body) tr) ss ->
+  forall st je jst old text,
+  c_oblig cf = [] -> Forall (fun s => (sdepth s < fuel)%nat) ss -> Forall (fun s => swf lv s = true) ss ->
+  sim cf st je jst old -> lvok lv (j_scope jst) ->
+  stmts_text cf (mode st) (sc_lookup (ctx st)) ss = Some text ->
+  exists st' ws je' jst',
+    let js := stmts_js (mode st) (j_buf jst) (j_scope jst) (j_n jst) ss in
+    eval_msg plural_index bd (walk_b cf plural_index bd fuel) mp id body st = (Ok tt, st') /\ wrote st st' ws /\ concat_b ws = text
+    /\ js_exec_seq je js = Ok je'
+    /\ visit_msg o (jwalk o fuel) id body jst = Ok (tt, jst')
+    /\ j_out jst' = rev (flat_map (sprint (j_indent jst)) js) ++ j_out jst
+    /\ sim cf st' je' jst' (old ++ text) /\ lvok lv (j_scope jst').
+Proof. exact three_sided_translation. Qed.
+Print Assumptions C11_three_sided_translation_partial.
+
+(* non-vacuity: "Hello {X}, {A_B}!{BREAK}" translated to "{BREAK}{A_B} -- {X}: hola" with x = 4 in the generated variable x_3
+   and a.b = "1<2" in opt_data, autoescape on: the items resolve to core prints, the subset semantics gives the
+   text, and the MiniJS statements append it.  ([sim] for this scope, environment and counter is satisfiable:
+   Properties/C04.v C04_ginv_nonvacuous, C04_env_rel_nonvacuous.) *)
+Definition ex3_px : node := snode (SPrint (CVar (b "x") []) []).
+Definition ex3_pa : node := snode (SPrint (CVar (b "a") [CAKey false (b "b")]) []).
+Definition ex3_body : list node :=
+  [NRawText 1 (b "Hello "); NMsgPlaceholder 2 (b "X") ex3_px; NRawText 3 (b ", "); NMsgPlaceholder 4 (b "A_B") ex3_pa; NRawText 5 (b "!");
+   NMsgPlaceholder 6 (b "BREAK") (NMsgHtmlTag 6 (b "<br/>"))].
+Definition ex3_tr : list titem :=
+  [TPh 6 (b "BREAK") (NMsgHtmlTag 6 (b "<br/>")); TPh 4 (b "A_B") ex3_pa; TText (b " -- "); TPh 2 (b "X") ex3_px; TText (b ": hola")].
+Definition ex3_ss : list cstmt :=
+  [SRaw (b "<br/>"); SPrint (CVar (b "a") [CAKey false (b "b")]) []; SRaw (b " -- "); SPrint (CVar (b "x") []) []; SRaw (b ": hola")].
+Definition ex3_env (k : bstr) : option value :=
+  if bstr_eqb k (b "a") then Some (VMap 7 [(b "b", VStr (b "1<2"))]) else if bstr_eqb k (b "x") then Some (VInt 4) else None.
+Definition ex3_cf : cfg := {| c_reg := empty_registry; c_ij := None; c_oblig := []; c_msgs := None |}.
+Example ex3_three_sided :
+  forallb flat_node ex3_body = true /\ msgstr_of ex3_tr = b "{BREAK}{A_B} -- {X}: hola"
+  /\ bundle_message [(9, new_message [] [msgstr_of ex3_tr])] 9 = Some (new_message [] [msgstr_of ex3_tr])
+  /\ Forall2 item_stmt (map (resolve ex3_body) ex3_tr) ex3_ss
+  /\ stmts_text ex3_cf 1 ex3_env ex3_ss = Some (b "<br/>1&lt;2 -- 4: hola")
+  /\ (match js_exec_seq {| je_vars := [(b "output", JStr (b "ab")); (b "x_3", JNum 4)]; je_data := JObj [(b "a", JObj [(b "b", JStr (b "1<2"))])] |}
+                        (stmts_js 1 (b "output") [[(b "x", b "x_3")]] 3 ex3_ss) with
+       | Ok je' => assoc_s (b "output") (je_vars je') | _ => None end) = Some (JStr (b "ab<br/>1&lt;2 -- 4: hola")).
+Proof.
+  split; [reflexivity|]. split; [vm_compute; reflexivity|]. split; [reflexivity|].
+  split; [|split; vm_compute; reflexivity].
+  vm_compute. repeat constructor.
+  - exact (is_print 4 (b "A_B") (CVar (b "a") [CAKey false (b "b")]) []).
+  - exact (is_print 2 (b "X") (CVar (b "x") []) []).
+Qed.
